@@ -443,7 +443,7 @@ linux_ver_revalidate(kdump_ctx_t *ctx, struct attr_data *attr)
 	struct attr_data *rel;
 	const char *p;
 	char *endp;
-	long a, b, c;
+	unsigned long a, b, c;
 	kdump_attr_value_t val;
 	kdump_status status;
 
@@ -459,7 +459,7 @@ linux_ver_revalidate(kdump_ctx_t *ctx, struct attr_data *attr)
 	if (endp == p || *endp != '.')
 		goto err;
 
-	b = c = 0L;
+	b = c = 0UL;
 	if (*endp) {
 		p = endp + 1;
 		b = strtoul(p, &endp, 10);
